@@ -8,7 +8,7 @@ the trees equal to the ones committed here on every C14 run.  This file proves t
 attributes `initialize` assigns for a configuration (`fixedEnv p d`, `guardedEnv p g d`), are the model's `strFixed` / `strGuarded`
 (DroopModel/Str.lean) — the functions the theorems of Props/C14.lean are about.
 
-`Rational.__str__` works on `Fraction` values and is not translated (correspondence `STR` only).
+`Rational.__str__` has its own executor and file: harness/gen_rstr.py, Props/C14Rat.lean.
 The format strings (`"%d.%0<w>d"`, `"%d.%0<p>d_%0<g>d"`) are built by `initialize`; their field widths are compared with the model by
 the `SESSION` correspondence of C20; here they are `Env.w1`, `Env.w2`.
 -/
